@@ -886,10 +886,26 @@ impl<'a> Exec<'a> {
         let mut v = vec![];
         let fmax = if self.pending_fds.len() >= self.cfg.max_pending_fds { 0 } else { self.cfg.max_fds_per_read };
         if self.cfg.stream.is_none() && self.queue.len() <= self.cfg.offer_when_queued_le {
+            // phase the stream will be in once the bytes already waiting have been consumed
+            let mut look = self.machine.clone();
+            let mut sink = vec![];
+            for b in &self.queue {
+                look.feed(*b, &mut sink);
+            }
             for (i, p) in self.cfg.pieces.iter().enumerate() {
-                let ok = if self.machine.in_body() {
+                let ok = if !self.cfg.judge_errors {
+                    // error-free streams only (C12): request lines at a request boundary,
+                    // header lines and the blank line inside a header block, bodies in bodies
+                    if look.in_body() {
+                        p.class == Class::Body
+                    } else if look.in_headers() {
+                        matches!(p.class, Class::Header | Class::Blank)
+                    } else {
+                        p.class == Class::ReqLine
+                    }
+                } else if look.in_body() {
                     matches!(p.class, Class::Body)
-                } else if self.machine.in_headers() {
+                } else if look.in_headers() {
                     matches!(p.class, Class::Header | Class::Blank | Class::Stray) || (p.class == Class::ReqLine && i == 0)
                 } else {
                     matches!(p.class, Class::ReqLine | Class::Blank | Class::Stray) || (self.twin.is_some() && p.class == Class::Header)
@@ -928,7 +944,8 @@ impl<'a> Exec<'a> {
         let pipes = std::mem::take(&mut self.pipes);
         // While requests and connection are alive, every read end must still be open.
         for (r, _) in &pipes {
-            if unsafe { libc::fcntl(*r, libc::F_GETFD) } < 0 && verdict.is_none() {
+            // (descriptors pending at a parse error are C11's business)
+            if unsafe { libc::fcntl(*r, libc::F_GETFD) } < 0 && verdict.is_none() && !self.errored {
                 verdict = Some(("fd-closed-early".into(), format!("descriptor {} was closed while its owner (request or connection) is still alive", r)));
             }
         }
